@@ -15,6 +15,11 @@ CHECKS = {
   text="Kernel-checked theorems over Model/DictUtils.lean for all dictionaries, patches and lists (unbounded nesting): C18_update_seq/_step (update is the sequential composition of single-entry updates), _untouched, _scalar, _no_overwrite, _merge_rec, _list_zip/_list_merge/_list_none_skips/_list_extra/_list_delete/_list_rest_kept, _delete_key/_delete_obj/_root_delete, C18_find_first, _findall_spec, _findunique_distinct/_sorted_ints, _findkey_path, C18_find_pure (threading the C17 dict states through the search). The model is tied to the real functions by correspondence on random nested plain/Mapfile dicts; an independent reference merge and law checks (arguments unchanged, identity of the result) are the oracle.",
   note="Trusted: Lean kernel; hand model of dictutils.py (correspondence-checked); domain: type-compatible patches, patch keys distinct under case folding for Mapfile-dict targets, deletion markers for existing keys, bool overwrite; result/patch aliasing not modelled.",
   ref="§6 C18"),
+ "C16": dict(
+  technique="Lean 4 proof by mutual structural induction over the printer model (every printed object is balanced layout for every dictionary and option record; alignment column arithmetic) + exact-string correspondence with PrettyPrinter.pprint",
+  text="Kernel-checked: fmt_bal/fmtItems_bal/fmtList_bal (mutual induction over unbounded nesting) giving C16_well_nested — an independent stack-discipline reader accepts the structured lines of every successfully printed object under every option record: openers and keyword lines at depth × indent, END at the opener's indentation, '# TYPE' with end_comment; C16_lines_joined and C16_indent_exact (text = rendered lines joined by newlinechar, each starting with lvl × indent spacers); C16_aligned_column and C16_aligned_kv (value column = first multiple of max(1, indent) past the longest simple keyword, ≥ 1 blank). The model is tied to pprint.py by exact-string correspondence on corpus and schema-generated dictionaries × option sets; an independent text-level line reader is the oracle on real dumps output.",
+  note="Trusted: Lean kernel; hand model of pprint.py/quoter.py (exact-string correspondence each run); Gen/Props + Gen/Vocab regenerated from schemas and tokens.py; ASCII case/strip functions; Python float division as Nat division; root key/value blocks (outside the 19 block types) are printed one level in and only shown balanced at depth 1.",
+  ref="§6 C16"),
 }
 NOT_APPLICABLE = {}
 ALL = [f"C{i:02d}" for i in range(1, 21)]
